@@ -58,13 +58,20 @@ ChkChange(e) ==
   LET m  == Models[MIdx(e.model)]
       m2 == Models[MIdx(e.model2)]
       K  == Len(e.parts)
-      ok(j) == /\ InRange(m, e.parts[j]) /\ InRange(m2, e.parts2[j])
-               /\ Agrees(e.parts2[j], e.o2)
-               /\ e.parts2[j] = Overlay(e.parts[j], e.o2)
+      wf(j) == InRange(m, e.parts[j]) /\ InRange(m2, e.parts2[j])
+      sat(j) == Agrees(e.parts2[j], e.o2)
+      \* the new particle: the new target's observations over the old particle's latents
+      ok(j) == wf(j) /\ sat(j) /\ e.parts2[j] = Overlay(e.parts[j], e.o2)
       want(j) == 256 * (JointLP(m2, e.parts2[j]) - JointLP(m, e.parts[j]))
-  IN  {Fl("C26.change", "particle_changed") : j \in {j \in 1..K : ~ok(j)}}
+      sumlin == ISum(1..K, LAMBDA j : e.lw2lin[j])
+  IN  {Fl("C26.constraints", IF Dropped(e.o, e.o2) # {} /\ e.parts2[j] = e.parts[j]
+                                THEN "stale_value_kept_at_newly_observed_address"
+                                ELSE "changed_particle_violates_new_constraint") :
+            j \in {j \in 1..K : wf(j) /\ ~sat(j)}}
+      \cup {Fl("C26.change", "particle_changed") : j \in {j \in 1..K : ~wf(j) \/ (sat(j) /\ ~ok(j))}}
       \cup {Fl("C26.change", IF Close(e.lw[j] - e.lw2[j], want(j)) /\ want(j) # 0 THEN "ratio_inverted" ELSE "other") :
-               j \in {j \in 1..K : ok(j) /\ ~Close(e.lw2[j] - e.lw[j], want(j))}}
+               j \in {j \in 1..K : wf(j) /\ ~Close(e.lw2[j] - e.lw[j], want(j))}}
+      \cup (IF Abs(K * e.lml2lin - sumlin) <= K + 1 + sumlin \div 256 THEN {} ELSE {Fl("C26.lml", "changed_collection")})
 
 \* SMCAlgorithm.random_weighted, one key: returned addresses; K = 1: the density estimate is exact
 ChkRw(e) ==
